@@ -409,6 +409,12 @@ func inlineSpec(tag string) interface{} {
 	return x
 }
 
+// brokenSpec: a spec source whose action does not compile
+func brokenSpec() interface{} {
+	return map[string]interface{}{"inline": map[string]interface{}{"name": "broken", "nodes": map[string]interface{}{
+		"start": map[string]interface{}{"action": map[string]interface{}{"interpreter": "ecmascript", "source": "this is not ( javascript"}}}}}
+}
+
 // genHist: crew operations (through the captain) interleaved with ordinary messages.
 func genHist(id int) O {
 	seq = 0
@@ -421,7 +427,12 @@ func genHist(id int) O {
 	capOp := func() map[string]interface{} {
 		mid := pickS(mids)
 		op := map[string]interface{}{"id": newID("op"), "to": "captain"}
-		switch rng.Intn(6) {
+		switch rng.Intn(8) {
+		case 6: // replace (or create with) a spec that does not compile: the operation fails
+			op["update"] = map[string]interface{}{mid: map[string]interface{}{"spec": brokenSpec()}}
+		case 7: // the same, with a state
+			op["update"] = map[string]interface{}{mid: map[string]interface{}{"spec": brokenSpec(),
+				"state": map[string]interface{}{"node": "start", "bs": map[string]interface{}{"table": map[string]interface{}{}, "log": []interface{}{"bad" + newID("")}}}}}
 		case 0, 1: // create / replace spec and state
 			op["update"] = map[string]interface{}{mid: map[string]interface{}{"spec": inlineSpec(pickS([]string{"A", "B"})),
 				"state": map[string]interface{}{"node": "start", "bs": map[string]interface{}{"table": map[string]interface{}{}, "log": []interface{}{"reset" + newID("")}}}}}
@@ -451,7 +462,16 @@ func genHist(id int) O {
 			h.Msgs = append(h.Msgs, again)
 			continue
 		}
-		switch rng.Intn(5) {
+		switch rng.Intn(6) {
+		case 5: // something the captain cannot execute: not an operation at all, or a malformed one
+			switch rng.Intn(3) {
+			case 0:
+				h.Msgs = append(h.Msgs, map[string]interface{}{"id": newID("m"), "to": "captain", "note": "not an op"})
+			case 1:
+				h.Msgs = append(h.Msgs, map[string]interface{}{"id": newID("op"), "to": "captain", "delete": "nosuch"})
+			default:
+				h.Msgs = append(h.Msgs, map[string]interface{}{"id": newID("op"), "to": "captain", "update": "everything"})
+			}
 		case 0, 1:
 			op := capOp()
 			if u, is := op["update"].(map[string]interface{}); is && op["delete"] == nil {
